@@ -83,7 +83,8 @@ Plan Gen(uint64_t seed, Tier tier)
     p.knobs["restart_to_enable"] = rng.chance(1, 2);
     // calm = the two situations in which BaseIndex::Commit declines to write (index ahead of the last flushed chainstate block) are kept
     // out of the run: no invalidateblock (which leaves a synced index ahead of the tip) and a chainstate flush right before every Sync()
-    p.knobs["calm"] = rng.chance(1, 2);
+    // calm=2: no invalidateblock either, but no extra flush: an interrupted Sync() may then be ahead of the last flushed chainstate block
+    p.knobs["calm"] = (int64_t)rng.pick({7, 9, 4});
     p.knobs["idx_cache_kb"] = (int64_t)std::vector<int>{8, 64, 1024}[rng.below(3)];
     // prune runs: a pruning node (manual pruning, 64 KiB block files) whose chain is extended by ~330 padded blocks so that whole block
     // files fall out of the 288-block keep window; only the indexes that allow pruning (block filter, coin statistics) exist
@@ -239,7 +240,7 @@ struct IdxSim {
         bool have_down{false};
         uint256 down_best;
         int down_height{0};
-        bool gap{false}; //!< sticky: a clean stop did not persist this index's progress (BaseIndex::Commit skipped) at least once
+        bool gap{false}; //!< sticky: a clean stop did not persist this index's state (BaseIndex::Commit skipped) at least once
     };
     // destroyed before nctx and cs (reverse declaration order)
     struct Slots {
@@ -308,13 +309,29 @@ struct IdxSim {
 
     // Marker carried by every event and violation that concerns an index whose progress was once lost across a clean stop
     // (see the known finding of C21): keeps that finding apart from anything else the oracle may report.
-    static constexpr const char* kGapTag = " [uncommitted-index-progress: an earlier clean stop left this index's best-block locator behind the entries it had already written]";
+    static constexpr const char* kGapTag = " [uncommitted-index-progress: at an earlier clean stop BaseIndex::Commit declined to write, leaving this index's locator and committed state behind the entries it had already written or erased]";
     const char* Tag(int k) { return slot[k].gap ? kGapTag : ""; }
     const char* AnyTag()
     {
         for (int k = 0; k < NK; ++k)
             if (slot[k].gap) return kGapTag;
         return "";
+    }
+
+    /** BaseIndex::Commit writes only if the index's best block is an ancestor (or equal) of the last flushed chainstate block. */
+    bool CommitWouldWrite(const IndexSummary& sum)
+    {
+        LOCK(cs_main);
+        const CBlockIndex* lf = cs.node->cs().GetLastFlushedBlock();
+        if (!lf || sum.best_block_height > lf->nHeight) return false;
+        const CBlockIndex* a = lf->GetAncestor(sum.best_block_height);
+        return a && a->GetBlockHash() == sum.best_block_hash;
+    }
+    void NoteUncommitted(int k, const char* how)
+    {
+        if (!slot[k].gap) ctx.evf("gap %s: %s", kName[k], how);
+        slot[k].gap = true;
+        ctx.probe("clean_stop_lost_index_progress");
     }
 
     // ---- index life cycle ----
@@ -338,8 +355,8 @@ struct IdxSim {
         ctx.evf("up %s init=%d synced=%d best=%d/%s", kName[k], ok, sum.synced, sum.best_block_height, Hx(sum.best_block_hash).c_str());
         if (s.have_down && (sum.best_block_hash != s.down_best || sum.best_block_height != s.down_height)) {
             // not a violation by itself (the index may redo the work), but everything written beyond the locator is now unknown to the index
+            if (!s.gap) ctx.probe("clean_stop_lost_index_progress");
             s.gap = true;
-            ctx.probe("clean_stop_lost_index_progress");
             ctx.evf("gap %s: stopped at %d/%s, restarted at %d/%s", kName[k], s.down_height, Hx(s.down_best).c_str(), sum.best_block_height, Hx(sum.best_block_hash).c_str());
         }
         if (!ok) ctx.failf("index-init-failed", "%s: %s Init() failed after a clean stop (the index considers its own database unusable)%s", where, kName[k], Tag(k));
@@ -376,7 +393,7 @@ struct IdxSim {
         if (before.synced) return true;
         const bool stale_start = !OnActive(before.best_block_hash);
         ProfScope ps("sync");
-        if (ctx.knob("calm", 0)) {
+        if (ctx.knob("calm", 0) == 1) {
             // calm runs: the chainstate has just been flushed whenever an index syncs, so BaseIndex::Commit never has a reason to skip
             LOCK(cs_main);
             cs.node->cs().ForceFlushStateToDisk(/*wipe_cache=*/false);
@@ -404,6 +421,7 @@ struct IdxSim {
             s.interrupted = true;
             any_event = true;
             ctx.probe("sync_interrupted_midway");
+            if (seam.writes > 0 && !CommitWouldWrite(after)) NoteUncommitted(k, "Sync() was interrupted ahead of the last flushed chainstate block, its commit is skipped");
             if (stale_start) ctx.probe("sync_interrupted_after_rewind");
             return false;
         }
@@ -821,6 +839,8 @@ struct IdxSim {
             LOCK(cs_main);
             cs.node->cs().ForceFlushStateToDisk();
         }
+        for (int k = 0; k < NK; ++k)
+            if (Synced(k) && !CommitWouldWrite(slot[k].obj->GetSummary())) NoteUncommitted(k, "stopped with a best block that the flushed chainstate does not contain, its commit is skipped");
         for (int k = 0; k < NK; ++k) Teardown(k);
         if (was_up) { ctx.probe("index_shutdown"); any_event = true; }
         if (node_restart && ctx.knob("on_disk", 0)) {
@@ -1056,7 +1076,7 @@ Engine MakeEngine()
     e.describe = Describe;
     e.chunk = 1;
     e.quick_runs = 600;
-    e.thorough_runs = 15000;
+    e.thorough_runs = 12000;
     e.quick_budget_s = 50;
     e.thorough_budget_s = 900;
     e.rule = "each run = one seeded block-tree history on a real regtest node (base chain of 101-118 blocks, then the shared chain workload with c09 bias: blocks with 0-6 transactions spending across fork points, "
